@@ -430,3 +430,165 @@ def _system_ok(w, o, order, m, node, spec, ncmp):
             return False, "not implied by the assembled system: %s" % desc
     return False, "the assembled system contains a condition that was not asked for (%d independent rows, %d expected)" % (
         len(actual), len(expected))
+
+
+# ------------------------------------------------------------------------------------------------
+# C01: the generated functions ARE the Cox-de Boor B-splines - induction over the order
+# ------------------------------------------------------------------------------------------------
+def _cdb_reference(knots, p):
+    """Cox-de Boor B-splines of order p on the knot vector (exact rationals): list over i of {grid interval: coefficients
+    about that interval's midpoint}. Convention 0/0 = 0."""
+    from fractions import Fraction as Fr
+    grid = sorted(set(knots))
+    nint = len(grid) - 1
+
+    def mul_lin(poly, c0, c1):   # (c0 + c1 (x - xm)) * poly
+        out = [Fr(0)] * (len(poly) + 1)
+        for q, a in enumerate(poly):
+            out[q] += c0 * a
+            out[q + 1] += c1 * a
+        return out
+    level = []
+    for i in range(len(knots) - 1):
+        f = {}
+        if knots[i] < knots[i + 1]:
+            f[grid.index(knots[i])] = [Fr(1)]
+        level.append(f)
+    for k in range(1, p + 1):
+        nxt = []
+        for i in range(len(knots) - k - 1):
+            f = {}
+            for I in range(nint):
+                xm = (grid[I] + grid[I + 1]) / 2
+                acc = [Fr(0)] * (k + 1)
+                d1 = knots[i + k] - knots[i]
+                if d1 > 0 and I in level[i]:
+                    t = mul_lin(level[i][I], (xm - knots[i]) / d1, Fr(1) / d1)
+                    acc = [a + b for a, b in zip(acc, t + [Fr(0)] * (k + 1 - len(t)))]
+                d2 = knots[i + k + 1] - knots[i + 1]
+                if d2 > 0 and I in level[i + 1]:
+                    t = mul_lin(level[i + 1][I], (knots[i + k + 1] - xm) / d2, Fr(-1) / d2)
+                    acc = [a + b for a, b in zip(acc, t + [Fr(0)] * (k + 1 - len(t)))]
+                if (d1 > 0 and I in level[i]) or (d2 > 0 and I in level[i + 1]):
+                    f[I] = acc
+            nxt.append(f)
+        level = nxt
+    return level
+
+
+def coxdeboor_suite(chk, w, rule, maxlen=6, orders=(0, 1, 2, 3), ns=None, fixed=True):
+    """(1) base: the order-0 functions are the indicator functions of the knot intervals (coefficient exactly 1);
+       (2) step, as a LINEAR MAP on opaque inputs: applyRecursionRelation<k>(i, s, s') is exactly
+           (x - t_i)/(t_{i+k-1} - t_i) s + (t_{i+k} - x)/(t_{i+k} - t_{i+1}) s'   (terms with a zero denominator dropped);
+       (3) wiring: generateBSplines<p>()[i] = step(i, lower[i], lower[i+1]) - checked as exact equality of the generated
+           functions with the Cox-de Boor reference on every multiplicity pattern and two spacings (the wiring is integer
+           index code; with (1) and (2) this equality is the induction's conclusion on the representatives)."""
+    from fractions import Fraction as Fr
+    cs = Cases(chk, rule, w)
+    GEN = "bspline::BSplineGenerator<%s>" % w.T
+    c1 = w.ctor(GEN, lambda d: len(d["params"]) == 1 and d["params"][0]["type"].startswith("std::vector<"), "knots")
+    w.I.allow_const_scaling = True
+    maps = [[0, 2, 4, 6, 8, 10], [0, 1, 4, 6, 11, 13]]
+    step_fn = {}
+    for k in (2, 3, 4):
+        step_fn[k] = w.method(GEN, "applyRecursionRelation", 3, required=False,
+                              pred=lambda d, k=k: ("Spline<%s, %d>" % (w.T, k - 2)) in d["params"][1]["type"])
+    have_step = all(v is not None for v in step_fn.values())
+    for L in _ns(2, maxlen, ns):
+        for pat in itertools.combinations_with_replacement(range(5), L):
+            distinct = sorted(set(pat))
+            if len(distinct) < 2 or distinct != list(range(len(distinct))):
+                continue
+            for vm in maps:
+                seq = [Fr(vm[j]) for j in pat]
+                grid = sorted(set(seq))
+                knots = [Sc(x) for x in seq]
+                o = w.run(lambda: w.I.construct(c1, [box(Vec(list(knots)))]), "BSplineGenerator(knots)")
+                if o.kind != "val":
+                    continue
+                gen = o.v
+                gridobj = w.mcall(gen, "getGrid")
+                if gridobj.kind != "val":
+                    continue
+                gi = {v_: j for j, v_ in enumerate(grid)}
+                # (1) + (3): generated functions equal the reference exactly
+                for p in orders:
+                    if L < p + 2:
+                        continue
+                    fg = w.method(GEN, "generateBSplines", 0, pred=lambda d, p=p: ("Spline<%s, %d>" % (w.T, p)) in
+                                  d["rtype"], required=False)
+                    if fg is None:
+                        continue
+                    r = w.call(fg, gen, [])
+                    if r.kind != "val" or not isinstance(val(r.v), Vec):
+                        continue   # count / refusal: structural suite and C11
+                    ref = _cdb_reference(seq, p)
+                    for i, sp in enumerate(val(r.v).items[:len(ref)]):
+                        view = spline_view(w, sp)
+                        ok, why = view is not None, "not observable"
+                        for I in (range(len(grid) - 1) if ok else ()):
+                            arr = view[1].get(I)
+                            want = ref[i].get(I)
+                            got = None if arr is None else [x.v if isinstance(x, Sc) else None for x in arr]
+                            if want is None:
+                                if got is not None and any(v_ != 0 for v_ in got):
+                                    ok, why = False, "function %d is not zero on interval %d" % (i, I)
+                            elif got is None or [Fr(v_) if v_ is not None and v_ != NAN else None for v_ in got] != want:
+                                ok, why = False, "function %d on interval %d has coefficients %s, Cox-de Boor gives %s" % (
+                                    i, I, None if got is None else [str(v_) for v_ in got], [str(v_) for v_ in want])
+                            if not ok:
+                                break
+                        cs.expect(fg, ("the order-0 functions are the indicator functions of the knot intervals" if p == 0 else
+                                       "the generated functions equal the Cox-de Boor B-splines of the knot vector (exact "
+                                       "coefficients about the interval midpoints)"),
+                                  dict(knots=[str(x) for x in seq], order=p, i=i), r, ok, "(%s)" % why)
+                # (2) the recursion step as a linear map on opaque lower-order splines
+                if not have_step or vm is not maps[1] and L > 4:
+                    continue
+                for k in (2, 3, 4):
+                    if L < k + 1:
+                        continue
+                    f = step_fn[k]
+                    for i in range(L - k):
+                        def span(a, b):
+                            lo, hi = gi[seq[a]], gi[seq[b]]
+                            return (lo, hi + 1) if hi > lo else (0, 0)
+                        wa, wb = span(i, i + k - 1), span(i + 1, i + k)
+                        sa = w.spline_on("a", k - 2, gridobj.v, *wa)
+                        sb = w.spline_on("b", k - 2, gridobj.v, *wb)
+                        o2 = w.call(f, gen, [i, box(sa), box(sb)])
+                        ok, why = False, repr(o2)
+                        if o2.kind == "val" and isinstance(val(o2.v), Obj):
+                            view = spline_view(w, val(o2.v))
+                            ok, why = view is not None, "not observable"
+                            d1 = seq[i + k - 1] - seq[i]
+                            d2 = seq[i + k] - seq[i + 1]
+                            for I in (range(len(grid) - 1) if ok else ()):
+                                xm = (grid[I] + grid[I + 1]) / 2
+                                ina = wa[0] <= I and I + 1 < wa[1]
+                                inb = wb[0] <= I and I + 1 < wb[1]
+                                want = [dict() for _ in range(k)]
+                                if d1 > 0 and ina:
+                                    for q in range(k - 1):
+                                        a_ = ("c", "a", I, q)
+                                        want[q][a_] = want[q].get(a_, 0) + (xm - seq[i]) / d1
+                                        want[q + 1][a_] = want[q + 1].get(a_, 0) + Fr(1) / d1
+                                if d2 > 0 and inb:
+                                    for q in range(k - 1):
+                                        b_ = ("c", "b", I, q)
+                                        want[q][b_] = want[q].get(b_, 0) + (seq[i + k] - xm) / d2
+                                        want[q + 1][b_] = want[q + 1].get(b_, 0) - Fr(1) / d2
+                                want = [{a_: v_ for a_, v_ in d_.items() if v_ != 0} for d_ in want]
+                                arr = view[1].get(I)
+                                got = [dict() for _ in range(k)] if arr is None else [
+                                    ({a_: v_ for a_, v_ in (x.lin or {}).items() if v_ != 0 and a_ is not None}
+                                     if isinstance(x, Sc) and x.lin is not None else None) for x in arr]
+                                if got != want:
+                                    ok, why = False, "interval %d: got %s, the recursion prescribes %s" % (I, got, want)
+                                    break
+                        cs.expect(f, "one recursion step is exactly (x - t_i)/(t_(i+k-1) - t_i) s + (t_(i+k) - x)/(t_(i+k) - t_(i+1)) s' "
+                                     "as a linear map of the two lower-order splines (terms with a zero denominator dropped)",
+                                  dict(knots=[str(x) for x in seq], k=k, i=i, s=wa, s2=wb), o2, ok, "(%s)" % str(why)[:300])
+    if not have_step:
+        cs.w.I.executed.add("(recursion step not found under the name applyRecursionRelation: only clauses (1) and (3))")
+    return cs.flush()
